@@ -47,17 +47,19 @@ Max(S) == IF S = {} THEN 0 ELSE CHOOSE x \in S : \A y \in S : y <= x
 
 VARIABLES disk, pend, pon,            \* persistent image, collector image, collector non-empty
           up, wfast, wver, work, dirty, staged, wok,   \* the live store of the running process
+          aband,      \* ghost: this handle abandoned a dirty session since its last commit (keeps such
+                      \* histories apart in the state graph, so every continuation is generated behind one)
           rpc, rv, rL, rfast, rleft, rbad,             \* concurrent read-only loader (Direct only)
           hist
 
-wvars == <<up, wfast, wver, work, dirty, staged, wok>>
+wvars == <<up, wfast, wver, work, dirty, staged, wok, aband>>
 rvars == <<rpc, rv, rL, rfast, rleft, rbad>>
 vars == <<disk, pend, pon, wvars, rvars>>
 
 Init ==
   /\ disk = P0 /\ pend = P0 /\ pon = FALSE
   /\ up = TRUE /\ wfast = TRUE /\ wver = 0 /\ work = Empty /\ dirty = FALSE
-  /\ staged = [k \in Keys |-> NoOp] /\ wok = TRUE
+  /\ staged = [k \in Keys |-> NoOp] /\ wok = TRUE /\ aband = FALSE
   /\ rpc = "idle" /\ rv = 0 /\ rL = 0 /\ rfast = FALSE /\ rleft = NLoads /\ rbad = FALSE
   /\ hist = <<>>
 
@@ -76,7 +78,7 @@ WSet(k, x) ==
   /\ work' = [work EXCEPT ![k] = [val |-> x, ver |-> wver + 1]]
   /\ staged' = IF wfast THEN [staged EXCEPT ![k] = "set"] ELSE staged
   /\ dirty' = TRUE
-  /\ UNCHANGED <<disk, pend, pon, up, wfast, wver, wok, rvars>>
+  /\ UNCHANGED <<disk, pend, pon, up, wfast, wver, wok, aband, rvars>>
   /\ Log(WRec("Set") @@ [k |-> k, v |-> x])
 
 WRemove(k) ==
@@ -84,7 +86,7 @@ WRemove(k) ==
   /\ work' = [work EXCEPT ![k] = None]
   /\ staged' = IF wfast /\ RemoveDeletesEntry THEN [staged EXCEPT ![k] = "del"] ELSE staged
   /\ dirty' = TRUE
-  /\ UNCHANGED <<disk, pend, pon, up, wfast, wver, wok, rvars>>
+  /\ UNCHANGED <<disk, pend, pon, up, wfast, wver, wok, aband, rvars>>
   /\ Log(WRec("Remove") @@ [k |-> k])
 
 Prune(n) == IF Keep < 0 \/ n - 1 - Keep < 1 THEN {} ELSE 1..(n - 1 - Keep)
@@ -99,7 +101,7 @@ Saved(b, n) ==   \* image after SaveVersion(n) on top of image b
 WCommit ==
   /\ Room /\ up /\ wok /\ wver < MaxVer /\ AtLatest
   /\ disk' = Saved(Live, wver + 1) /\ pon' = FALSE /\ pend' = P0   \* Direct: flushed; else drained with the block
-  /\ wver' = wver + 1 /\ dirty' = FALSE /\ staged' = [k \in Keys |-> NoOp]
+  /\ wver' = wver + 1 /\ dirty' = FALSE /\ staged' = [k \in Keys |-> NoOp] /\ aband' = FALSE
   /\ UNCHANGED <<up, wfast, work, wok, rvars>>
   /\ Log(WRec("Commit"))
 
@@ -124,18 +126,20 @@ LoadEff(target) ==
 WReload ==
   /\ Room /\ up /\ wok /\ Abandon
   /\ LoadEff(0)
+  /\ aband' = (aband \/ (dirty /\ Max(disk.roots) > 0))
   /\ UNCHANGED <<up, wfast, rvars>>
   /\ Log(WRec("Reload") @@ [ok |-> wok'])
 
 WLoadVersion(x) ==
   /\ Room /\ up /\ wok /\ Abandon /\ x \in disk.roots
   /\ LoadEff(x)
+  /\ aband' = (aband \/ dirty)
   /\ UNCHANGED <<up, wfast, rvars>>
   /\ Log(WRec("LoadVersion") @@ [v |-> x, ok |-> wok'])
 
 Crash ==
   /\ Room /\ up
-  /\ up' = FALSE /\ pon' = FALSE /\ pend' = P0
+  /\ up' = FALSE /\ pon' = FALSE /\ pend' = P0 /\ aband' = FALSE
   /\ UNCHANGED <<disk, wfast, wver, work, dirty, staged, wok, rvars>>
   /\ Log([act |-> "Crash", st |-> Proj(disk), ver |-> wver, fastOn |-> wfast])
 
@@ -148,7 +152,7 @@ Reopen(f) ==
      IN /\ up' = TRUE /\ wfast' = f /\ wver' = n
         /\ work' = IF n = 0 THEN Empty ELSE disk.trees[n]
         /\ dirty' = FALSE /\ staged' = [k \in Keys |-> NoOp]
-        /\ wok' = ~bad
+        /\ wok' = ~bad /\ aband' = FALSE
         /\ IF need THEN (IF Direct THEN disk' = Rebuilt(disk, n) /\ pon' = FALSE /\ pend' = P0
                                    ELSE pend' = Rebuilt(disk, n) /\ pon' = TRUE /\ disk' = disk)
                    ELSE UNCHANGED <<disk, pend, pon>>
